@@ -15,7 +15,9 @@ package sched
 import (
 	"fmt"
 	"reflect"
+	"runtime"
 	"sort"
+	"strconv"
 	"strings"
 	"sync"
 	"sync/atomic"
@@ -79,6 +81,7 @@ type Exec struct {
 	mu        sync.Mutex
 	threads   []*Thread
 	byVM      map[any]*Thread
+	byGoid    map[uint64]*Thread // goroutine id -> thread, to attribute nested VMs started by native callbacks
 	current   *Thread
 	nextID    int
 	Points    []Point
@@ -216,17 +219,22 @@ func (x *Exec) park(t *Thread) {
 func (x *Exec) hook(ev *scriggo.VerifEvent) {
 	switch ev.Kind {
 	case scriggo.VerifBegin:
+		gid := goid()
 		x.mu.Lock()
 		t := x.byVM[ev.VM]
 		if t == nil {
-			// root VM of a Run called by the running driver thread, or a nested
-			// VM started by a native callback on the running thread's goroutine
-			t = x.current
+			// root VM of a Run called by a driver thread, or a nested VM started
+			// by a native callback: it belongs to the thread of this goroutine
+			// (which need not be the running one: a thread woken from a blocking
+			// operation may call back again before its next scheduling point)
+			t = x.byGoid[gid]
 			if t == nil {
 				x.mu.Unlock()
 				stranger() // a goroutine of an abandoned execution
 			}
 			x.byVM[ev.VM] = t
+		} else {
+			x.byGoid[gid] = t
 		}
 		t.vm = ev.VM
 		t.vmDepth++
@@ -371,6 +379,20 @@ func (x *Exec) hook(ev *scriggo.VerifEvent) {
 	}
 }
 
+// goid returns the id of the calling goroutine (parsed from the stack header;
+// only used at VM begin events, which are rare).
+func goid() uint64 {
+	var buf [64]byte
+	n := runtime.Stack(buf[:], false)
+	// "goroutine 123 [running]:"
+	f := strings.Fields(string(buf[:n]))
+	if len(f) < 2 {
+		return 0
+	}
+	id, _ := strconv.ParseUint(f[1], 10, 64)
+	return id
+}
+
 // stranger blocks a goroutine that does not belong to the current execution forever.
 func stranger() {
 	select {}
@@ -488,7 +510,7 @@ func runOne(t *testing.T, sc *Scenario, prefix []int) (x *Exec, obs string) {
 	if sc.Prepare != nil {
 		sc.Prepare()
 	}
-	x = &Exec{sc: sc, byVM: map[any]*Thread{}, prefix: prefix}
+	x = &Exec{sc: sc, byVM: map[any]*Thread{}, byGoid: map[uint64]*Thread{}, prefix: prefix}
 	maxPoints := sc.MaxPoints
 	if maxPoints == 0 {
 		maxPoints = 20000
@@ -519,6 +541,9 @@ func runOne(t *testing.T, sc *Scenario, prefix []int) (x *Exec, obs string) {
 				body := d.Body
 				go func() {
 					<-th.resume
+					x.mu.Lock()
+					x.byGoid[goid()] = th
+					x.mu.Unlock()
 					body()
 					x.mu.Lock()
 					th.status = stEnded
